@@ -466,6 +466,208 @@ theorem mergedStore_eq {α} (stackable : Nat → Bool) (i : Nat) (segs : List (S
         rw [hall, ← hlen x (by simp), liveDocs_replicate_true]
       · simp [hst]
 
+/-! ### postings of the concatenation -/
+
+theorem postingsOk_bound (n : Nat) (ps : List Posting) (h : postingsOk n ps = true) :
+    ∀ p ∈ ps, p.doc < n := by
+  induction ps with
+  | nil => simp
+  | cons p rest ih =>
+    cases rest with
+    | nil => simpa [postingsOk] using h
+    | cons q rest' =>
+      simp only [postingsOk, Bool.and_eq_true, decide_eq_true_eq] at h
+      have hq := ih h.2
+      intro x hx
+      rw [List.mem_cons] at hx
+      rcases hx with rfl | hx
+      · have := hq q (by simp); omega
+      · exact hq x hx
+
+theorem isAlive_append_mid (A al B : List Bool) (d : Nat) (hd : d < al.length) :
+    isAlive (A ++ (al ++ B)) (d + A.length) = isAlive al d := by
+  unfold isAlive
+  simp only [List.getD_eq_getElem?_getD]
+  rw [List.getElem?_append_right (by omega), Nat.add_sub_cancel, List.getElem?_append_left hd]
+
+theorem rank_append_mid (A al B : List Bool) (d : Nat) (hd : d < al.length) :
+    rank (A ++ (al ++ B)) (d + A.length) = A.count true + rank al d := by
+  unfold rank
+  rw [Nat.add_comm d, List.take_length_add_append, List.count_append,
+    List.take_append_of_le_length (by omega)]
+
+theorem livePostings_shift_mid (A al B : List Bool) (ps : List Posting)
+    (h : ∀ p ∈ ps, p.doc < al.length) :
+    livePostings (A ++ (al ++ B)) (shift A.length ps) = shift (A.count true) (livePostings al ps) := by
+  induction ps with
+  | nil => rfl
+  | cons p rest ih =>
+    have hp := h p (by simp)
+    have ih' := ih (fun q hq => h q (by simp [hq]))
+    simp only [livePostings, shift, List.map_cons, List.filterMap_cons] at ih' ⊢
+    rw [isAlive_append_mid A al B p.doc hp, rank_append_mid A al B p.doc hp]
+    by_cases ha : isAlive al p.doc = true
+    · simp only [ha, if_true, List.map_cons]
+      rw [ih']
+      congr 2
+      omega
+    · simp only [ha]
+      exact ih'
+
+theorem livePostings_append (al : List Bool) (p1 p2 : List Posting) :
+    livePostings al (p1 ++ p2) = livePostings al p1 ++ livePostings al p2 := by
+  simp [livePostings]
+
+theorem livePostings_length (al : List Bool) (ps : List Posting) :
+    (livePostings al ps).length = docFreqGivenDeletes al ps := by
+  induction ps with
+  | nil => rfl
+  | cons p rest ih =>
+    simp only [livePostings, docFreqGivenDeletes] at ih ⊢
+    by_cases hp : isAlive al p.doc = true
+    · simp [hp, ih]
+    · simp [hp, ih]
+
+theorem liveBase_append {α} (pre : List (Segment α)) (x : Segment α) (rest : List (Segment α)) :
+    liveBase (pre ++ x :: rest) pre.length = ((pre.map (·.alive)).flatten).count true := by
+  simp [liveBase, List.count_flatten, List.map_map]
+  rfl
+
+/-- for every key: the merged posting list (sources with live doc_freq 0 skipped, others
+remapped through their tables) is the live posting list of the concatenation, renumbered; the
+accumulated `total_doc_freq` is its length -/
+theorem mergedTermFrom_eq {α} (k : Key) (pre rest : List (Segment α))
+    (hpost : ∀ s ∈ rest, ∀ t ∈ s.terms, postingsOk s.alive.length t.2 = true) :
+    (mergedTermFrom (oldToNew (pre ++ rest)) k pre.length rest).2
+      = livePostings (((pre ++ rest).map (·.alive)).flatten)
+          (concatPostings k rest ((pre.map (·.alive)).flatten).length) ∧
+    (mergedTermFrom (oldToNew (pre ++ rest)) k pre.length rest).1
+      = (mergedTermFrom (oldToNew (pre ++ rest)) k pre.length rest).2.length := by
+  induction rest generalizing pre with
+  | nil => simp [mergedTermFrom, concatPostings, livePostings]
+  | cons x rest' ih =>
+    have hx : (pre ++ x :: rest')[pre.length]? = some x := by simp
+    have hb : ∀ p ∈ postingsOf x.terms k, p.doc < x.alive.length := by
+      unfold postingsOf
+      cases hl : x.terms.lookup k with
+      | none => simp
+      | some ps =>
+        have hm : (k, ps) ∈ x.terms := by
+          have := List.lookup_eq_some_iff.1 hl
+          obtain ⟨l1, l2, he, _⟩ := this
+          rw [he]; simp
+        exact postingsOk_bound _ _ (hpost x (by simp) (k, ps) hm)
+    have hrem := remapPostings_closed (pre ++ x :: rest') pre.length x hx (postingsOf x.terms k)
+    have ih' := ih (pre ++ [x]) (fun s hs => hpost s (by simp [hs]))
+    simp only [List.append_assoc, List.singleton_append, List.length_append, List.length_singleton,
+      List.map_append, List.map_cons, List.map_nil, List.flatten_append, List.flatten_cons,
+      List.flatten_nil, List.append_nil] at ih'
+    have hall : ((pre ++ x :: rest').map (·.alive)).flatten
+        = (pre.map (·.alive)).flatten ++ (x.alive ++ (rest'.map (·.alive)).flatten) := by simp
+    rw [← hall] at ih'
+    have hspec : livePostings (((pre ++ x :: rest').map (·.alive)).flatten)
+        (shift ((pre.map (·.alive)).flatten).length (postingsOf x.terms k))
+        = remapPostings (oldToNew (pre ++ x :: rest')) pre.length (postingsOf x.terms k) := by
+      rw [hrem, liveBase_append, hall]
+      exact livePostings_shift_mid _ _ _ _ hb
+    have hdf : (remapPostings (oldToNew (pre ++ x :: rest')) pre.length (postingsOf x.terms k)).length
+        = docFreqGivenDeletes x.alive (postingsOf x.terms k) := by
+      rw [hrem]; simp [shift, livePostings_length]
+    simp only [mergedTermFrom, concatPostings]
+    rw [livePostings_append, hspec]
+    by_cases hpos : docFreqGivenDeletes x.alive (postingsOf x.terms k) > 0
+    · simp only [hpos, if_true]
+      refine ⟨by rw [ih'.1], ?_⟩
+      rw [List.length_append, hdf, ih'.2]
+    · have hz : docFreqGivenDeletes x.alive (postingsOf x.terms k) = 0 := by omega
+      have hnil : remapPostings (oldToNew (pre ++ x :: rest')) pre.length (postingsOf x.terms k) = [] :=
+        List.eq_nil_of_length_eq_zero (hdf.trans hz)
+      simp only [hpos, if_false, hnil, List.nil_append]
+      exact ⟨ih'.1, ih'.2⟩
+
+/-! ### assembling the translation theorem -/
+
+theorem rank_lt_count (al : List Bool) (d : Nat) (h : isAlive al d = true) :
+    rank al d < al.count true := by
+  have h1 := liveIdsFrom_getElem?_rank al 0 d h
+  have := (List.getElem?_eq_some_iff.1 h1).1
+  rwa [liveIdsFrom_length] at this
+
+theorem livePostings_bound (al : List Bool) (ps : List Posting) :
+    ∀ q ∈ livePostings al ps, q.doc < al.count true := by
+  intro q hq
+  simp only [livePostings, List.mem_filterMap] at hq
+  obtain ⟨p, _, hp⟩ := hq
+  by_cases ha : isAlive al p.doc = true
+  · simp only [ha, if_true, Option.some.injEq] at hp
+    subst hp
+    exact rank_lt_count al p.doc ha
+  · simp [ha] at hp
+
+theorem isAlive_replicate_true (n d : Nat) (h : d < n) : isAlive (List.replicate n true) d = true := by
+  simp [isAlive, List.getD_eq_getElem?_getD, h]
+
+theorem rank_replicate_true (n d : Nat) (h : d ≤ n) : rank (List.replicate n true) d = d := by
+  simp [rank, List.take_replicate, Nat.min_eq_left h]
+
+/-- `dump` does not renumber an all-alive segment -/
+theorem livePostings_replicate_true (n : Nat) (ps : List Posting) (h : ∀ p ∈ ps, p.doc < n) :
+    livePostings (List.replicate n true) ps = ps := by
+  induction ps with
+  | nil => rfl
+  | cons p rest ih =>
+    have hp := h p (by simp)
+    have ih' := ih (fun q hq => h q (by simp [hq]))
+    simp only [livePostings, List.filterMap_cons] at ih' ⊢
+    rw [isAlive_replicate_true n p.doc hp, rank_replicate_true n p.doc (by omega)]
+    simp only [if_true]
+    rw [ih']
+
+theorem terms_glue (keys : List Key) (F : Key → Nat × List Posting) (G : Key → List Posting)
+    (n : Nat) (h : ∀ k, (F k).2 = G k ∧ (F k).1 = (G k).length)
+    (hb : ∀ k, ∀ p ∈ G k, p.doc < n) :
+    dropEmpty ((((keys.map fun k => (k, (F k).1, (F k).2)).filter fun t => t.2.1 > 0).map
+        fun t => (t.1, t.2.2)).map fun t => (t.1, livePostings (List.replicate n true) t.2))
+      = dropEmpty (keys.map fun k => (k, G k)) := by
+  induction keys with
+  | nil => rfl
+  | cons k rest ih =>
+    obtain ⟨h2, h1⟩ := h k
+    simp only [List.map_cons, List.filter_cons, dropEmpty] at ih ⊢
+    by_cases hpos : (F k).1 > 0
+    · have hne : (G k).isEmpty = false := by
+        cases hg : G k with
+        | nil => rw [hg] at h1; simp at h1; omega
+        | cons a as => rfl
+      simp only [hpos, decide_true, if_true, List.map_cons, List.filter_cons]
+      rw [h2, livePostings_replicate_true n (G k) (hb k)]
+      simp only [hne, Bool.not_false, if_true]
+      rw [ih]
+    · have he : (G k).isEmpty = true := by
+        cases hg : G k with
+        | nil => rfl
+        | cons a as => rw [hg] at h1; simp at h1; omega
+      simp only [hpos, decide_false, Bool.false_eq_true, if_false, he, Bool.not_true]
+      exact ih
+
+theorem mergeModel_terms {α} (segs : List (Segment α))
+    (hpost : ∀ s ∈ segs, ∀ t ∈ s.terms, postingsOk s.alive.length t.2 = true) :
+    (dump (mergeModel segs)).terms = (mergeSpec segs).terms := by
+  have hn : (newToOld segs).length = ((segs.map (·.alive)).flatten).count true := by
+    rw [newToOld, newToOldFrom_length, List.count_flatten, List.map_map]
+    rfl
+  have key := terms_glue (allKeys segs) (fun k => mergedTermFrom (oldToNew segs) k 0 segs)
+    (fun k => livePostings ((segs.map (·.alive)).flatten) (concatPostings k segs 0))
+    (newToOld segs).length
+    (fun k => by
+      have h := mergedTermFrom_eq k [] segs hpost
+      simp only [List.nil_append, List.length_nil, List.map_nil, List.flatten_nil] at h
+      exact ⟨h.1, by rw [h.2, h.1]⟩)
+    (fun k p hp => by rw [hn]; exact livePostings_bound _ _ p hp)
+  simp only [dump, mergeModel, mergedTerms, mergeSpec, concat, List.map_map]
+  simp only [List.map_map] at key
+  exact key
+
 /-! ### updater -/
 
 theorem endMergeWith_discard_epoch (b : Bool) (st : State) (r : Running) (h : r.epoch ≠ st.epoch) :
